@@ -360,6 +360,21 @@ def _storage(R, b, only):
                         R.mismatch("create-raises:" + type(e).__name__, inner, f"{e!s:.300}")
                         continue
                     readback(R, inner, p, bins, pix, symm, cols)
+                    # the same table as three chunks in arbitrary order through the two-pass route (fan-in 2): dtypes, extra columns
+                    # and storage options belong to the result, not only to the direct route
+                    if oi == 0 or (k % 3 == 0):
+                        R.ev(1, 1)
+                        R.add("transitions", 4)
+                        R.cls("storage:unordered-two-pass")
+                        inner2 = {**inner, "route": "unordered-two-pass"}
+                        t = max(1, len(df) // 3)
+                        try:
+                            cooler.create_cooler(p, bdf, iter([df.iloc[2 * t:], df.iloc[:t], df.iloc[t:2 * t]]), columns=list(cols), dtypes=dtypes,
+                                                 symmetric_upper=symm, h5opts=h5opts, ordered=False, max_merge=2, mergebuf=2)
+                        except Exception as e:
+                            R.mismatch("create-raises:" + type(e).__name__, inner2, f"{e!s:.300}")
+                            continue
+                        readback(R, inner2, p, bins, pix, symm, cols)
                 finally:
                     scratch.rm(p)
     R.sample({"leg": "storage", "count_dtypes": COUNT_DTYPES, "extra": [list(e) for e in EXTRA], "h5opts": [repr(o) for o in H5OPTS]})
